@@ -1,8 +1,8 @@
 (* C12  Header text survives encoding.  Statements only.
    What is PROVED here: the round trip for unstructured header values, for EVERY string (C12_roundtrip), the
    round trip for display names, for EVERY name (C12_display_name), the round trip for attachment file names
-   shorter than 1000 octets (C12_filename; the bound keeps the section numbers of RFC 2231 continuations at three
-   digits, which is what the encoder's line budget is proved for), the part about encoded-words, and the
+   shorter than 100 000 octets (C12_filename; the bound keeps the section numbers of RFC 2231 continuations at five
+   digits, which is what the encoder's line budget is proved for; the property asks for 64 KiB), the part about encoded-words, and the
    unfolding of values that need no encoding.  The extracted readers are also run on the implementation's
    output (exhaustive small alphabet + families + whole messages), see DESIGN.md. *)
 From Coq Require Import Strings.String.
@@ -51,15 +51,15 @@ Example C12_display_name_example :
   end.
 Proof. exists (bs "=?utf-8?b?RG9lLCDDqSAg8J+YgA==?="). vm_compute. split; [reflexivity|]. split; [reflexivity|discriminate]. Qed.
 
-(* THE property for file names: for both disposition types and EVERY well-formed UTF-8 file name shorter than 1000
-   octets, the Content-Disposition field written by ContentDisposition::attachment / inline_with_name is read by an
+(* THE property for file names: for both disposition types and EVERY well-formed UTF-8 file name shorter than
+   100 000 octets (the property's 64 KiB included; section numbers of up to five digits), the Content-Disposition field written by ContentDisposition::attachment / inline_with_name is read by an
    RFC 2183 / RFC 2231 reader (parameters split at ';' outside quoted strings; filename="..." with quoted-pairs;
    continuations filename*0="...", filename*1="..."; extended values filename*0*=utf-8''%..; Spec/Rfc2231.v) as
    exactly that disposition type and that file name - whichever of the three forms rfc2231::encode chooses (it fits
    the line / printable but too long / anything else), wherever the lines are broken; and the encoder neither
    panics (its unchecked subtraction of the line budget) nor runs out of steps. *)
 Theorem C12_filename : forall kind fname : bytes,
-  kind = bs "attachment" \/ kind = bs "inline" -> utf8_valid fname = true -> (length fname < 1000)%nat ->
+  kind = bs "attachment" \/ kind = bs "inline" -> utf8_valid fname = true -> (length fname < 100 * 1000)%nat ->
   exists e, content_disposition_encode kind fname = Ok e /\ decode_disposition e = Some (kind, fname).
 Proof. exact filename_roundtrip_utf8. Qed.
 
